@@ -30,8 +30,11 @@ package sigbits
 //@   requires forall i int :: 0 <= i && i < len(keys) ==> len(keys[i]) < 1<<27
 //@   ensures len(ds) == len(keys) - 1
 //@   ensures forall i int :: 0 <= i && i < len(keys) - 1 ==> fdBytes(keys[i], keys[i+1], ds[i])
+//@   ensures fdsOK(keys, ds)
 //@   ensures fresh(ds)
 //@   assigns nothing
+//@   reveal fdsOK
+//@   instdepthret 3
 //@   loop 1
 //@     invariant 0 <= i && i <= l - 1 && l == len(keys) && len(ds) == l - 1 && fresh(ds)
 //@     invariant forall j int :: 0 <= j && j < i ==> fdBytes(keys[j], keys[j+1], ds[j])
@@ -146,11 +149,32 @@ package sigbits
 //@   requires len(keys) >= 1 && len(keys) < 1<<30 && maxSize >= 1
 //@   requires forall i int :: 0 <= i && i < len(keys) ==> len(keys[i]) < 1<<27
 // the keys are strictly ascending (byte-lexicographic)
-//@   requires forall i int :: 0 <= i && i < len(keys) - 1 ==> strLess(keys[i], keys[i+1])
+// (bound variable named ...SK: this quantifier is instantiated only at the skolem constants of a goal - it is
+// needed exactly once, for the precondition of the call dfs(0, n))
+//@   requires forall iSK int :: 0 <= iSK && iSK < len(keys) - 1 ==> strLess(keys[iSK], keys[iSK+1])
+// (the same requirement once more through the opaque alias strLessO == strLess, which is what the lemma shard_pre_lessO consumes)
+//@   requires forall i int :: 0 <= i && i < len(keys) - 1 ==> strLessO(keys[i], keys[i+1])
 //@   ensures len(L) >= 1 && len(B) == len(L) + 1 && B[0] == 0 && B[len(B)-1] == int32(len(keys))
 //@   ensures forall j int :: 0 <= j && j < len(L) ==> 0 <= B[j] && B[j] < B[j+1] && B[j+1] - B[j] <= maxSize
-// the two clauses of C17 that are NOT obligations (facts about sorted strings): evaluated on concrete executions of
-// the real function on every run (bounded): L[j] is exactly the common-prefix length of shard j; the shard prefixes ascend strictly
+// the two string-level clauses of C17, as obligations: L[j] is exactly the common-prefix length of shard j
+// (lemmas lcp_run_ge / lcp_run_le: the minimum of the adjacent common-prefix lengths of a run IS the run's
+// common-prefix length); the shard prefixes ascend strictly (lemma shard_pre_less at every inner boundary,
+// from the ordering facts ordOK that the recursion carries)
+//@   ensures forall j int :: 0 <= j && j < len(L) ==> lcpIs(keys, int(B[j]), int(B[j+1]), int(L[j]))
+//@   ensures forall j int :: 0 <= j && j < len(L) - 1 ==> preLessO(keys[int(B[j])], int(L[j]), keys[int(B[j+1])], int(L[j+1]))
+//@   useret mn_ge(firstDiffs, 0, int(n) - 1, int32(len(keys[0])), 0)
+//@   assertret ordOK(firstDiffs, prefixes, keyCnts, 0, len(keyCnts) - 1, 0)
+//@   useret forall jGSK int :: lcp_run_is(keys, firstDiffs, int(keyCnts[jGSK]), int(keyCnts[jGSK+1]))
+//@   assertret forall j int :: 0 <= j && j < len(prefixes) ==> lcpIs(keys, int(keyCnts[j]), int(keyCnts[j+1]), int(prefixes[j]))
+//@   useret forall jGSK int :: ord_at(firstDiffs, prefixes, keyCnts, 0, len(keyCnts) - 1, 0, jGSK + 1)
+//@   assertret forall j int :: 0 <= j && j < len(prefixes) - 1 ==> prefixes[j] >= firstDiffs[int(keyCnts[j+1])-1] >> 3 && prefixes[j+1] > firstDiffs[int(keyCnts[j+1])-1] >> 3
+//@   useret forall jGSK int :: mn_lower(firstDiffs, int(keyCnts[jGSK+1]), int(keyCnts[jGSK+2]) - 1, int32(len(keys[int(keyCnts[jGSK+1])])), 0)
+//@   assertret forall j int :: 0 <= j && j < len(prefixes) - 1 ==> int(prefixes[j+1]) <= len(keys[int(keyCnts[j+1])])
+//@   useret forall jGSK int :: fdsOK_at(keys, firstDiffs, int(keyCnts[jGSK+1]) - 1)
+//@   assertret forall j int :: 0 <= j && j < len(prefixes) - 1 ==> fdB1(keys, firstDiffs, int(keyCnts[j+1]) - 1) && strLessO(keys[int(keyCnts[j+1])-1], keys[int(keyCnts[j+1])])
+//@   useret forall jGSK int :: shard_pre_lessO(keys, firstDiffs, int(keyCnts[jGSK]), int(keyCnts[jGSK+1]), prefixes[jGSK], prefixes[jGSK+1])
+// the same two clauses are also evaluated on concrete executions of the real function on every run (bounded; this
+// is what reports a change that moves the function out of the shape the closure's contract describes)
 //@   checked forall j int :: 0 <= j && j < len(L) ==> lcpAll(keys, int(B[j]), int(B[j+1]), int(L[j])) && !lcpAll(keys, int(B[j]), int(B[j+1]), int(L[j]) + 1)
 //@   checked forall j int :: 0 <= j && j < len(L) - 1 ==> preLess(keys[int(B[j])], int(L[j]), keys[int(B[j+1])], int(L[j+1]))
 //@   witness-gen keys = func() []string { m := map[string]bool{}; if r.Intn(40) == 0 { p := string([]byte("ab\x00\xff")[:r.Intn(3)]); m[p] = true; for c := 0; c < 256; c++ { m[p+string([]byte{byte(c)})] = true }; if r.Intn(2) == 0 { m[p+"a"+"b"] = true } } else { n := 1 + r.Intn(12); for len(m) < n { b := make([]byte, r.Intn(5)); for i := range b { b[i] = "ab\x00\xff"[r.Intn(4)] }; m[string(b)] = true } }; ks := []string{}; for k := range m { ks = append(ks, k) }; sort.Strings(ks); return ks }()
